@@ -251,6 +251,15 @@ def r1_decorator(program, rep):
         okg = Lg == [("foreach", STACK,
                       ("all", ("attr", ("elem", STACK),
                                "context_arguments")))]
+        if not okg and len(Lg) == 1 and Lg[0][0] == "foreach" and \
+                Lg[0][1] != STACK and Lg[0][1][0] in ("call", "callv") and \
+                Lg[0][1][1][0] == "attr" and Lg[0][1][1][1] == STACK:
+            # the stack is another kind of object asked for its contexts by
+            # a method of its own: the order that method yields is not read
+            raise AnalysisError("get_context_arguments walks the stack "
+                                "through a method of the stack object (%s); "
+                                "the order it yields is not analysed" %
+                                Lg[0][1][1][2])
     push = program.get(CX + ":Context.__enter__")
     TP = Terms(push)
     okpush = any(plain(recv) == ("attr", ("param", "self"), "stack") and
@@ -415,17 +424,28 @@ def r2_pairing(program, rep):
     pops = [c for c in ast.walk(ex) if isinstance(c, ast.Call) and
             call_name(c)[0] == "pop" and
             chain(call_name(c)[1]) == "self.stack"]
-    ok = len(pops) == 1
+    ok = len(pops) >= 1
     in_assert = False
+    pns = []
     if ok:
-        n = pops[0]
-        while n is not None and n is not ex:
-            if isinstance(n, ast.Assert):
-                in_assert = True
-            n = getattr(n, "_parent", None)
-        pn = site_in(ex, cfg, pops[0])
-        allpaths = cfg.must_pass(cfg.entry, lambda x: x is pn,
+        for pop_ in pops:
+            n = pop_
+            while n is not None and n is not ex:
+                if isinstance(n, ast.Assert):
+                    in_assert = True
+                n = getattr(n, "_parent", None)
+            pns.append(site_in(ex, cfg, pop_))
+        pn = pns[0]
+        # (one pop on every way out; with several pop sites - one in an
+        # exception handler, one on the normal path - no way out passes two)
+        allpaths = cfg.must_pass(cfg.entry, lambda x: any(x is p_
+                                                          for p_ in pns),
                                  targets=[cfg.exit, cfg.raise_exit])
+        if len(pns) > 1 and any(a_ is not b_ and cfg.reaches(a_, b_)
+                                for a_ in pns for b_ in pns):
+            raise AnalysisError("Context.__exit__ pops the stack at several "
+                                "sites that can follow one another; not "
+                                "analysed")
     rep.check(ok and not in_assert, "C18-R2", inst, "the context is popped "
               "by a statement of its own (not inside an assert, which "
               "vanishes under -O)", construct="pop outside assert", node=ex)
@@ -447,10 +467,11 @@ def r2_pairing(program, rep):
         if okc:
             cn_ = site_in(ex, cfg, call[0])
             ln_ = site_in(ex, cfg, cbs[0])
-            okc = cfg.reaches(cn_, pn) and not cfg.reaches(pn, cn_) and \
+            okc = all(
+                cfg.reaches(cn_, pn_) and not cfg.reaches(pn_, cn_) and
                 cfg.must_pass(cfg.entry, lambda x: x is ln_ or (
                     ln_.kind != "stmt" and x is cfg.stmt_node.get(
-                        id(cbs[0]))), targets=[pn])
+                        id(cbs[0]))), targets=[pn_]) for pn_ in pns)
     rep.check(okc, "C18-R2", inst, "the registered callbacks run on every "
               "exit, before the pop (the stop signal still sees the block's "
               "app id)", construct="callbacks before pop", node=ex,
